@@ -14,6 +14,10 @@ func NativeToObject(val any) Object {
 type visit struct {
 	ptr    uintptr
 	length int
+
+	// a struct and its first field begin at the same address, the
+	// type tells the two apart
+	typ reflect.Type
 }
 
 func nativeToObject(val any, path map[visit]bool) Object {
@@ -57,7 +61,7 @@ func nativeToObject(val any, path map[visit]bool) Object {
 		rv := reflect.ValueOf(val)
 
 		if !rv.IsNil() && (valType.Kind() == reflect.Pointer || rv.Len() > 0) {
-			at := visit{ptr: rv.Pointer()}
+			at := visit{ptr: rv.Pointer(), typ: valType}
 
 			if valType.Kind() != reflect.Pointer {
 				at.length = rv.Len()
